@@ -197,7 +197,15 @@ def replay_model(ob):
     from ..runner import replay_requests
     m = ob.model or {}
     pts = [[int(m.get("%s%d" % (p, i), 0)) for i in range(3)] for p in PTS]
-    a = replay_requests([{"op": "in_sphere_exact", "pts": pts}])[0]
+    # C11: the obligation is about one big-integer back end; replay on the crate built with that feature where it builds offline
+    be = "ibig"
+    parts = ob.name.split(".")
+    if parts[0] == "C11" and len(parts) > 1 and parts[1] in ("dashu", "malachite", "num_bigint"): be = parts[1]
+    note = ""
+    try:
+        a = replay_requests([{"op": "in_sphere_exact", "pts": pts}], backend=be, timeout=600)[0]
+    except Exception as e:
+        a, note = replay_requests([{"op": "in_sphere_exact", "pts": pts}])[0], "back end %s does not build here (%s): replayed on ibig" % (be, str(e)[:120]); be = "ibig"
     d = py_det(pts)
     oracle = float((d > 0) - (d < 0))
-    return {"input": pts, "real_result": a, "oracle_sign": oracle, "reproduced": a.get("r") != oracle}
+    return {"input": pts, "backend_feature": be, "real_result": a, "oracle_sign": oracle, "reproduced": a.get("r") != oracle, "note": note}
